@@ -5,10 +5,10 @@ import ast
 import itertools
 from collections import ChainMap
 
-from sa.astx import NotConst, call_name, const_eval, dotted, src, statements
+from sa.astx import NotConst, call_name, const_eval, src, statements
 from sa.selftest import Mutant, Silent
 from sa.source import AnalysisError, class_assigns, methods, mro_lookup
-from sa.props._lib_h import call_nodes, edge_path, is_attr, need, self_attr
+from sa.props._lib_h import need, self_attr
 
 PROPERTY = "C38"
 TELNET = "conch/telnet.py"
